@@ -191,6 +191,8 @@ def rel_c06(prog):
         out["variants"].append((name, _eval(src, formula_opts={name: val})))
     out["variants"].append(("propagate_evidence", _eval(src, ground_opts={"propagate_evidence": True})))
     out["variants"].append(("propagate_weights", _eval(src, formula_opts={"propagate_weights": SemiringProbability()})))
+    out["variants"].append(("propagate_evidence+weights", _eval(src, formula_opts={"propagate_weights": SemiringProbability()},
+                                                              ground_opts={"propagate_evidence": True})))
     out["variants"].append(("log-space", _eval(src, semiring=SemiringLogProbability())))
     out["variants"].append(("propagate_weights-log-space", _eval(src, formula_opts={"propagate_weights": SemiringLogProbability()},
                                                               semiring=SemiringLogProbability())))
@@ -302,6 +304,20 @@ def rel_c08(prog):
         out["variants"].append(("reused-prepared-db", ("ok", dict((str(k), float(v)) for k, v in r2.items()))))
     except Exception as e:      # noqa
         out["variants"].append(("shared-target-random-order", ("exc", classify_exception(e))))
+    # (d) the evidence written as evidence/1 in the program, the queries added one ground_all call at a time to the
+    #     same target, with evidence propagation (as the learning code grounds)
+    try:
+        ev1 = "".join("evidence(%s%s).\n" % ("" if e[2] else "\\+", progs.atom_str(e[1])) for e in prog if e[0] == "evidence")
+        eng = DefaultEngine()
+        db = eng.prepare(PrologString(progs.render(rest) + ev1))
+        target = LogicFormula()
+        for q in queries:
+            eng.ground_all(db, target=target, queries=[Term.from_string(progs.atom_str(q[1]).replace("_", "X"))],
+                           propagate_evidence=True)
+        r = get_evaluatable().create_from(target).evaluate()
+        out["variants"].append(("query-by-query-ground_all", ("ok", dict((str(k), float(v)) for k, v in r.items()))))
+    except Exception as e:      # noqa
+        out["variants"].append(("query-by-query-ground_all", ("exc", classify_exception(e))))
     return out
 
 
